@@ -26,7 +26,9 @@ def main():
         reach.start(env.pkg_dir())
     t0 = time.time()
     try:
-        if "replay" in desc:
+        if desc.get("noop"):
+            pass
+        elif "replay" in desc:
             mod.replay(desc["replay"], acc)
         else:
             mod.run_shard(desc, acc)
@@ -40,6 +42,8 @@ def main():
         for v in contracts.VIOLATIONS[:20]:
             acc.fail("ambient-contract", "contract:" + v["contract"].split(":")[0], "ambient-contract", [],
                      "contract-broken", v["detail"], {"kind": "contract", "contract": v["contract"]})
+    for f in acc.fails:
+        f["python_O"] = bool(sys.flags.optimize)
     out = acc.to_json()
     out["reach"] = reach.counts()
     out["wall_s"] = time.time() - t0
